@@ -167,6 +167,8 @@ pub fn dt_invariant(cyc: &Cycle, d: &DateTime) -> Result<(), String> {
 
 thread_local! {
     static REUSED_BUF: std::cell::Cell<[Option<FoundDateTimeKind>; 24]> = const { std::cell::Cell::new([None; 24]) };
+    /// when non-zero, check_search uses a fresh buffer of that many slots (readings with more results than the reused buffer holds)
+    static BIG_RESULTS: std::cell::Cell<usize> = const { std::cell::Cell::new(0) };
     /// when set, check_search makes exactly one search (find_n) per judged reading
     static SINGLE_SEARCH: std::cell::Cell<bool> = const { std::cell::Cell::new(false) };
     /// results of the previous search of this thread (C17: prefill for the next buffers)
@@ -296,8 +298,12 @@ pub fn check_search(ctx: &Ctx, z: &MZone, zr: TimeZoneRef<'_>, f: &Fields, sweep
 
     // ---- run the implementation (allocation-free entry point). The buffer is reused across all searches of this thread and
     // never cleared (the documented way of using find_n): stale entries of earlier searches stay behind the written prefix.
-    let mut buf: [Option<FoundDateTimeKind>; 24] = REUSED_BUF.with(|b| b.get());
-    let res = DateTime::find_n(&mut buf, f.y, f.mo, f.d, f.h, f.mi, f.s, f.ns, zr);
+    let big = BIG_RESULTS.with(|c| c.get());
+    let mut small_buf: [Option<FoundDateTimeKind>; 24] = REUSED_BUF.with(|b| b.get());
+    let mut big_buf: Vec<Option<FoundDateTimeKind>> = vec![stale_entry(); big];
+    let buf: &mut [Option<FoundDateTimeKind>] = if big > 0 { &mut big_buf } else { &mut small_buf };
+    let cap = buf.len();
+    let res = DateTime::find_n(buf, f.y, f.mo, f.d, f.h, f.mi, f.s, f.ns, zr);
     let list = match res {
         Ok(l) => l,
         Err(e) => {
@@ -310,13 +316,15 @@ pub fn check_search(ctx: &Ctx, z: &MZone, zr: TimeZoneRef<'_>, f: &Fields, sweep
         }
     };
     if !list.is_exhaustive() {
-        report(Prop::C05, json!(format!("{} results", exp.len())), json!(format!("{} results (more than 24)", list.count())), tl);
+        report(Prop::C05, json!(format!("{} results", exp.len())), json!(format!("{} results (more than the {cap} slots of the buffer)", list.count())), tl);
         return;
     }
     let got: Vec<FoundDateTimeKind> = list.data().iter().map(|x| x.expect("written slot")).collect();
     let (l_unique, l_earliest, l_latest) = (list.unique(), list.earliest(), list.latest());
     drop(list);
-    REUSED_BUF.with(|b| b.set(buf));
+    if big == 0 {
+        REUSED_BUF.with(|b| b.set(small_buf));
+    }
     let got_json = || json!(got.iter().map(kind_json).collect::<Vec<_>>());
     let exp_json = || json!(exp.iter().map(found_json).collect::<Vec<_>>());
     tl.digest = tl.digest.wrapping_add(got.iter().fold(l as u64, |a, k| match k {
@@ -1261,10 +1269,21 @@ fn sweep_tie_rules(ctx: &Ctx, tabs: &Tables, thorough: bool) -> Tally {
 fn sweep_many_results(ctx: &Ctx) -> Tally {
     let cyc = ctx.cyc;
     let mut tl = Tally::default();
-    for k in [7usize, 8, 9, 10, 11, 15, 16, 17, 20] {
+    // up to 20 results through the reused 24-slot buffer; 2^j - 1 .. 2^j + 2 results (j <= 8) through a buffer of k + 8 slots
+    let mut ks = vec![7usize, 8, 9, 10, 11, 15, 16, 17, 20, 24, 25];
+    for j in 5..=8u32 {
+        for d in [-1i64, 0, 1, 2] {
+            ks.push(((1i64 << j) + d) as usize);
+        }
+    }
+    for k in ks {
         for rising in [false, true] {
             for rule_kind in 0..2 {
+                if k > 40 && rule_kind == 1 && rising {
+                    continue;
+                }
                 let r = guard(|| {
+                    BIG_RESULTS.with(|c| c.set(if k > 20 { k + 8 } else { 0 }));
                     let mut tl = Tally::default();
                     let types: Vec<MType> = (0..k).map(|i| MType::new(if rising { 1000 * i as i32 } else { 30_000 - 1000 * i as i32 }, i % 2 == 1, Some(&format!("T{:02}", i)))).collect();
                     let trans: Vec<(i64, usize)> = (1..k).map(|i| (1000 * i as i64, i)).collect();
@@ -1273,13 +1292,18 @@ fn sweep_many_results(ctx: &Ctx) -> Tally {
                     let iz = ImplZone::from_model(&z).unwrap();
                     let zr = iz.zref().unwrap();
                     tl.zones += 1;
-                    for l in (-2000i64..=42_000).step_by(250) {
+                    let hi = 42_000i64.max(2100 * k as i64);
+                    // (with falling offsets every type shows the readings 30 000 .. 30 999: k results)
+                    let coarse = (-2000i64..=hi).step_by(if k > 40 { 1750 } else { 250 });
+                    for l in coarse.chain((29_500i64..=31_500).step_by(250)) {
                         if let Some(f) = Fields::of_local(cyc, l, 0) {
                             check_search(ctx, &z, zr, &f, "many_results", &mut tl);
                         }
                     }
+                    BIG_RESULTS.with(|c| c.set(0));
                     tl
                 });
+                BIG_RESULTS.with(|c| c.set(0));
                 match r {
                     Ok(t) => tl = tl.merge(t),
                     Err(m) => ctx.rec.violation("many_results", json!({"kind":"many_results","k":k,"rising":rising}), json!("no panic"), json!(m)),
